@@ -37,29 +37,59 @@ func c17EndToEnd(c *vh.Ctx, calc, h2g string) {
 		cs.nodes = r.Range(1, 9)
 		cs.crlf = r.Chance(0.5)
 		cs.final = r.Chance(0.6)
-		cs.blanks = []string{"none", "between", "leading", "trailing", "many"}[i%5]
-		eol := "\n"
+		// "whitespace": lines of blanks / tabs only between the lines (not empty: both tools count them, the simulator
+		// runs them and reports the missing arguments); "mixed-eol": LF and CRLF in one file, empty lines between;
+		// "tokens": tabs and several blanks between the tokens, leading and trailing blanks
+		cs.blanks = []string{"none", "between", "leading", "trailing", "many", "whitespace", "mixed-eol", "tokens"}[i%8]
+		rx := vh.NewRng(c.Seed ^ uint64(i+1)*0x9e3779b97f4a7c15 ^ 0xe2e17) // the added shapes draw from their own generator
+		eol1 := "\n"
 		if cs.crlf {
-			eol = "\r\n"
+			eol1 = "\r\n"
 		}
+		eol := func() string {
+			if cs.blanks == "mixed-eol" && rx.Chance(0.5) {
+				return map[string]string{"\n": "\r\n", "\r\n": "\n"}[eol1]
+			}
+			return eol1
+		}
+		sep, lead, trail := " ", "", ""
 		var sb strings.Builder
 		if cs.blanks == "leading" || cs.blanks == "many" {
-			sb.WriteString(eol)
+			sb.WriteString(eol())
+		}
+		if cs.blanks == "whitespace" && rx.Chance(0.4) {
+			sb.WriteString(" " + eol())
 		}
 		for k := 1; k <= cs.n; k++ {
-			fmt.Fprintf(&sb, "project=p plotNr=1 CropFile=none c_L%d=1", k)
+			if cs.blanks == "tokens" {
+				sep = []string{"\t", "  ", " \t ", "    "}[rx.Intn(4)]
+				lead, trail = []string{"", " ", "\t"}[rx.Intn(3)], []string{"", " ", " \t"}[rx.Intn(3)]
+			}
+			fmt.Fprintf(&sb, "%sproject=p%splotNr=1%sCropFile=none%sc_L%d=1%s", lead, sep, sep, sep, k, trail)
 			if k < cs.n || cs.final {
-				sb.WriteString(eol)
+				sb.WriteString(eol())
 			}
 			if k < cs.n && (cs.blanks == "between" && r.Chance(0.4) || cs.blanks == "many" && r.Chance(0.7)) {
-				sb.WriteString(eol)
+				sb.WriteString(eol())
 				if r.Chance(0.3) {
-					sb.WriteString(eol)
+					sb.WriteString(eol())
+				}
+			}
+			if k < cs.n && cs.blanks == "mixed-eol" && rx.Chance(0.4) {
+				sb.WriteString(eol())
+			}
+			if k < cs.n && cs.blanks == "whitespace" && rx.Chance(0.5) {
+				sb.WriteString([]string{" ", "\t", "   ", " \t"}[rx.Intn(4)] + eol())
+				if rx.Chance(0.3) {
+					sb.WriteString(eol()) // and an empty one
 				}
 			}
 		}
 		if cs.final && (cs.blanks == "trailing" || cs.blanks == "many") {
-			sb.WriteString(eol)
+			sb.WriteString(eol())
+		}
+		if cs.final && cs.blanks == "whitespace" && rx.Chance(0.4) {
+			sb.WriteString("\t") // the file ends with a line of one tab, no line end
 		}
 		cs.bytes = []byte(sb.String())
 	}
@@ -71,13 +101,13 @@ func c17EndToEnd(c *vh.Ctx, calc, h2g string) {
 		defer os.RemoveAll(dir)
 		p := filepath.Join(dir, "batch.txt")
 		os.WriteFile(p, cs.bytes, 0o644)
-		so, se, err := vh.RunTool(20*time.Second, dir, calc, "-size", strconv.Itoa(cs.nodes), "-batch", p)
+		so, se, err := vh.RunTool(20*time.Second, dir, calc, optionOrder(i, []string{"-size", strconv.Itoa(cs.nodes)}, []string{"-batch", p})...)
 		if err != nil {
 			cs.err = fmt.Sprintf("calcHermesBatch -size: %v %s", err, se)
 			return
 		}
 		cs.size = strings.TrimSpace(so)
-		so, se, err = vh.RunTool(20*time.Second, dir, calc, "-list", strconv.Itoa(cs.nodes), "-batch", p)
+		so, se, err = vh.RunTool(20*time.Second, dir, calc, optionOrder(i/2, []string{"-list", strconv.Itoa(cs.nodes)}, []string{"-batch", p})...)
 		if err != nil {
 			cs.err = fmt.Sprintf("calcHermesBatch -list: %v %s", err, se)
 			return
